@@ -109,3 +109,105 @@ func VH_C20_HealthForest() {
 		vhReach("corrupted")
 	}
 }
+
+// The same forests on a PersistentSlabStorage with every slab loaded (each
+// slab in the write set or in the read cache by choice): the health check
+// behaves identically, SlabIterator yields each live slab exactly once, and
+// GetAllChildReferences returns exactly the resolvable descendants and the
+// broken references of a slab.
+//
+//vh:prop C20
+//vh:param n 3 4
+func VH_C20_PersistentForest() {
+	n := vhParam("n", 3)
+	base := newVBase()
+	st := vhNewPersistent(base)
+	slabs, parent := vhForest(st, n)
+	victim := -1
+	if vhChoose("corrupt", 2) == 1 {
+		victim = 1 + vhChoose("victim", n-1)
+		vhAssume(parent[victim] >= 0)
+	}
+	for i, s := range slabs {
+		if i == victim {
+			continue // a referenced slab that is missing
+		}
+		if vhChoose("place", 2) == 0 {
+			st.deltas[s.id] = s
+		} else {
+			st.cache[s.id] = s
+		}
+	}
+	// iterator: each live slab exactly once
+	it, err := st.SlabIterator()
+	if victim < 0 {
+		vhAssert(err == nil, "iterator over a healthy storage")
+	}
+	if err == nil {
+		seen := map[SlabID]int{}
+		for {
+			id, slab := it()
+			if id == SlabIDUndefined {
+				break
+			}
+			vhAssert(slab != nil, "iterator yields live slabs")
+			seen[id]++
+		}
+		for i, s := range slabs {
+			if i == victim {
+				continue
+			}
+			vhAssert(seen[s.id] == 1, "iterator yields each live slab exactly once")
+		}
+	}
+	nroots := 0
+	for i := 0; i < n; i++ {
+		if parent[i] < 0 {
+			nroots++
+		}
+	}
+	_, herr := CheckStorageHealth(st, nroots)
+	if victim < 0 {
+		vhAssert(herr == nil, "healthy persistent storage accepted")
+	} else {
+		vhAssert(herr != nil, "persistent storage with a deleted referenced slab rejected")
+	}
+	// all-child-references query from every live slab
+	for i, s := range slabs {
+		if i == victim {
+			continue
+		}
+		refs, broken, rerr := st.GetAllChildReferences(s.id)
+		vhAssert(rerr == nil, "child references: no error")
+		if rerr != nil {
+			continue
+		}
+		// expected: descendants of i; the victim (if a descendant) is broken and its subtree is not followed
+		wantRefs, wantBroken := 0, 0
+		for j := i + 1; j < n; j++ {
+			// is j a descendant of i with no missing slab strictly between?
+			k, ok, viaVictim := j, false, false
+			for k >= 0 {
+				if k == i {
+					ok = true
+					break
+				}
+				if k != j && k == victim {
+					viaVictim = true
+				}
+				k = parent[k]
+			}
+			if !ok || viaVictim {
+				continue
+			}
+			if j == victim {
+				wantBroken++
+			} else {
+				wantRefs++
+			}
+		}
+		vhAssert(len(refs) == wantRefs, "child references: exactly the resolvable descendants")
+		vhAssert(len(broken) == wantBroken, "child references: exactly the broken references")
+	}
+	vhReach("persistent-forest-done")
+}
